@@ -500,7 +500,14 @@ class TreeSim(WorldBase):
     def op_ref(self, a, targets):
         s = a["slot"]
         sl = self.slot(s)
-        self.need_unfrozen(s)
+        if a.get("during_walk"):
+            # the body of a dense, element-creating walk also inserts elsewhere in the tensor it walks
+            live = [t for t in self.tasks.values() if not t.done and s in t.slots]
+            if not live or any(t.kind not in ("ishaperef",) for t in live) or self.prop not in ("C01", "C02"):
+                raise Skip("only under a live dense reference walk")
+            self.probe("insertion_during_dense_reference_walk")
+        else:
+            self.need_unfrozen(s)
         pre = dec_point(a.get("prefix", []))
         rest = dec_point(a["rest"])
         point = pre + rest
@@ -1953,6 +1960,11 @@ class TreeSim(WorldBase):
 
     def gen_ref(self, g):
         s = self.pick_slot(g, nonfree=False)
+        walking = sorted({t.zslot for t in self.tasks.values() if not t.done and t.kind == "ishaperef"
+                          and not any((not u.done) and u.kind != "ishaperef" and t.zslot in u.slots for u in self.tasks.values())})
+        during = False
+        if self.prop in ("C01", "C02") and walking and g.random() < 0.3:
+            s, during = g.choice(walking), True
         if s is None:
             return None
         sl = self.slots[s]
@@ -1971,6 +1983,12 @@ class TreeSim(WorldBase):
             v = sl.default
         a = {"slot": s, "prefix": enc_point(pre), "rest": enc_point(rest), "act": act, "v": v,
              "via": g.choice(["t", "root"])}
+        if during:
+            a["during_walk"] = True
+            a["act"] = g.choice(["set", "add", "none"])
+            if a["act"] != "none":
+                a["v"] = self.nextval()
+            return ["op", "ref", a]
         if self.prop in ("C03", "C01", "C02") and g.random() < 0.05 and rest and isinstance(rest[-1], int):
             return ["op", "ref", dict(a, rest=enc_point(rest + (0,)), toolong=True, act="none")]
         if g.random() < 0.4:
